@@ -193,7 +193,11 @@ func genRegressionStreams(rng *vh.Rng, n int, emit func(id string, sel int, in [
 				nopods++
 			}
 		}
-		emit(id, 7, in, "enqueue-action/"+kindName(kind)+"/gates=default", inq && pend,
+		gates := "gates=default"
+		if kind >= 10 {
+			gates = "gates=SchedulingGatesQueueAdmission"
+		}
+		emit(id, 7, in, "enqueue-action/"+kindName(kind%10)+"/"+gates, inq && pend,
 			map[string]any{"queues": len(qs), "jobs": len(js), "inqueueWithoutPods": nopods})
 	}
 	emitPreempt("preempt-witness-mutantB", []int64{6, 4, 1, 2, 2, 0, 0, 1})
@@ -202,7 +206,9 @@ func genRegressionStreams(rng *vh.Rng, n int, emit func(id string, sel int, in [
 	for k := int64(1); k <= 3; k++ {
 		emitEnqueue(fmt.Sprintf("enqueue-witness-%d", k), enqueueWitness(k))
 		emitEnqueue(fmt.Sprintf("enqueue-gated-witness-%d", k), enqueueGatedWitness(k))
+		emitEnqueue(fmt.Sprintf("enqueue-scalar-witness-%d", k), enqueueScalarWitness(k))
 	}
+	emitEnqueue("enqueue-gate-reserved-witness", enqueueGateReservedWitness())
 	emitEnqueue("enqueue-closed-children-witness", enqueueClosedChildrenWitness())
 	// allocate with a failing allocate callback ahead of the queue plugin: non-trivial when queue 1
 	// asks for more than it may have (directed half of the stream)
